@@ -416,7 +416,7 @@ func c15Phases(unpriv bool) []*fw.Phase {
 	}
 	rnd := &fw.Phase{
 		Name: "random-len12" + suffix, Chroot: true, Unpriv: unpriv,
-		N: fw.Fixed(5000, 100000),
+		N: fw.Fixed(15000, 100000),
 		Run: func(env *fw.Env, idx int) fw.Result {
 			r := env.Rand(idx)
 			return c15Run(env, c15RandomSeq(r))
@@ -424,7 +424,7 @@ func c15Phases(unpriv bool) []*fw.Phase {
 	}
 	unsup := &fw.Phase{
 		Name: "unsupported-at-every-position" + suffix, Chroot: true, Unpriv: unpriv,
-		N: fw.Fixed(500, 10000),
+		N: fw.Fixed(1500, 10000),
 		Run: func(env *fw.Env, idx int) fw.Result {
 			r := env.Rand(idx)
 			c := c15RandomSeq(r)
